@@ -517,10 +517,10 @@ impl<'a> Runner<'a> {
     }
 
     fn classify_id(&self, l: &Live, nodeid_root: bool, matches_earlier: bool, dflt: String) -> String {
-        if nodeid_root && l.pino == 1 {
-            "C14:root-mount-global-map".into()
-        } else if l.own_map.is_none() && matches_earlier {
+        if l.own_map.is_none() && matches_earlier {
             "C14:slot-reuse-inherits-map".into()
+        } else if nodeid_root && l.pino == 1 {
+            "C14:root-mount-global-map".into()
         } else {
             dflt
         }
@@ -1031,6 +1031,36 @@ fn gen_case(r: &mut Prng, prop: &str, n: u64, out: &mut Out) -> (String, String,
     let mut g = Gen { r, next_bk: 0, stale: vec![], maps_used: vec![], gmap };
     let mut bulk_k = 0usize;
     let bulk_target = if bulk { g.r.range(200, 280) as usize } else { 0 };
+    // C14 "reuse" histories: a mapped mount is over-mounted (its slot is freed with the mapping
+    // still in the table), the index wraps around, and an unmapped mount lands in that slot
+    if prop == "C14" && shape == 3 {
+        let m = g.pick_map(false);
+        g.maps_used.push(m);
+        let pre = g.r.below(4);
+        for k in 0..pre {
+            let st = g.mount_step(&run.w, prop, Some(1000 + k as usize));
+            run.exec(&st);
+        }
+        let mut mk = |g: &mut Gen, path: String, map: String| -> String {
+            g.next_bk += 1;
+            let (bk, u, gi) = (g.next_bk, g.id(), g.id());
+            format!("m:{}:{}:{}:1/{}/{}/100000:0", path, bk, map, u, gi)
+        };
+        let st = mk(&mut g, "/x".into(), format!("{}/{}/{}", m.0, m.1, m.2));
+        run.exec(&st);
+        let st = mk(&mut g, "/x".into(), "-".into());
+        run.exec(&st);
+        for k in 0..(253 - pre) {
+            let st = mk(&mut g, format!("/q{}", k), "-".into());
+            run.exec(&st);
+        }
+        for k in 0..3 {
+            let st = mk(&mut g, format!("/z{}", k), "-".into());
+            run.exec(&st);
+            let (u, gi) = (g.id(), g.id());
+            run.exec(&format!("r:lookup:{}:{}:1:{}::", u, gi, hex(format!("z{}", k).as_bytes())));
+        }
+    }
     for _ in 0..len {
         if run.panicked {
             break;
